@@ -104,6 +104,7 @@ type c22Case struct {
 	Order  []int     // unit order of each produce round
 	NRecs  []int     // records per produce
 	Delete int       // -1 none, 0 delete topic A, 1 delete topic B
+	Groups []string  // consumer group id templates ({V} = topic to delete, {O} = the other topic)
 }
 
 type c22Unit struct {
@@ -524,15 +525,39 @@ func c22Run(env *c22Env, c *c22Case, enforceReject bool) *c22Result {
 
 	// metadata isolation on delete
 	if c.Delete >= 0 && res.Accepted[0] && res.Accepted[1] {
-		for i, u := range units {
-			u.Commit = int64(100 + i)
-			if err := env.store.CommitConsumerOffset(ctx, "c22-group", u.Topic, u.Part, u.Commit, fmt.Sprintf("m%d", i)); err != nil {
-				res.Violation = fmt.Sprintf("commit consumer offset for %s: %v", c22Q(u.Topic), err)
-				return res
-			}
-		}
 		victim := c.Names[c.Delete]
 		other := 1 - c.Delete
+		// group ids are free-form strings (never validated): the plain one plus ids built from
+		// the two topic names; every (group, topic, partition) gets its own committed offset
+		groups := []string{"c22-group"}
+		for _, tpl := range c.Groups {
+			g := strings.NewReplacer("{V}", victim, "{O}", c.Names[other]).Replace(tpl)
+			dup := g == ""
+			for _, x := range groups {
+				dup = dup || x == g
+			}
+			if !dup {
+				groups = append(groups, g)
+			}
+		}
+		for i, u := range units {
+			u.Commit = int64(100 + 10*i)
+			for gi, g := range groups {
+				if err := env.store.CommitConsumerOffset(ctx, g, u.Topic, u.Part, u.Commit+int64(gi), fmt.Sprintf("m%d-%d", i, gi)); err != nil {
+					res.Violation = fmt.Sprintf("commit consumer offset of group %s for %s: %v", c22Q(g), c22Q(u.Topic), err)
+					return res
+				}
+			}
+		}
+		for i, u := range units { // read back before the delete: commits must not alias each other
+			for gi, g := range groups {
+				off, _, err := env.store.FetchConsumerOffset(ctx, g, u.Topic, u.Part)
+				if err != nil || off != u.Commit+int64(gi) {
+					res.Violation = fmt.Sprintf("committed offset of group %s on %s partition %d reads back %d (err=%v), committed %d (unit %d)", c22Q(g), c22Q(u.Topic), u.Part, off, err, u.Commit+int64(gi), i)
+					return res
+				}
+			}
+		}
 		objBefore := env.obj.Snapshot()
 		out, err := h2.handleDeleteTopics(ctx, &protocol.RequestHeader{CorrelationID: 11}, &kmsg.DeleteTopicsRequest{TopicNames: []string{victim}})
 		if err != nil {
@@ -551,10 +576,12 @@ func c22Run(env *c22Env, c *c22Case, enforceReject bool) *c22Result {
 			if u.TI != other {
 				continue
 			}
-			off, meta, err := env.store.FetchConsumerOffset(ctx, "c22-group", u.Topic, u.Part)
-			if err != nil || off != u.Commit {
-				res.Violation = fmt.Sprintf("deleting %s changed the committed consumer offset of %s partition %d: now %d %q (err=%v), committed %d", c22Q(victim), c22Q(u.Topic), u.Part, off, meta, err, u.Commit)
-				return res
+			for gi, g := range groups {
+				off, meta, err := env.store.FetchConsumerOffset(ctx, g, u.Topic, u.Part)
+				if err != nil || off != u.Commit+int64(gi) {
+					res.Violation = fmt.Sprintf("deleting %s changed the committed consumer offset of group %s on %s partition %d: now %d %q (err=%v), committed %d", c22Q(victim), c22Q(g), c22Q(u.Topic), u.Part, off, meta, err, u.Commit+int64(gi))
+					return res
+				}
 			}
 			cfg, err := env.store.FetchTopicConfig(ctx, u.Topic)
 			if err != nil || cfg == nil || cfg.Name != u.Topic {
@@ -680,12 +707,21 @@ func c22Sanitize(n string) string {
 
 func c22GenCase(t *rapid.T, st *vfkit.Stats, colonStore bool) (*c22Case, string) {
 	c := &c22Case{}
-	n1 := c22GenName(t, "n1")
-	if rapid.IntRange(0, 3).Draw(t, "simple-first") == 0 {
-		n1 = rapid.SampledFrom([]string{"a", "b", "x", "orders", "0"}).Draw(t, "simple")
+	var n1, n2, tr string
+	if rapid.IntRange(0, 9).Draw(t, "legal-mode") < 6 {
+		// both names inside the Kafka legal set [a-zA-Z0-9._-]: these are the pairs a broker
+		// that validates names still has to keep apart
+		n1 = c22GenLegalName(t, "n1")
+		tr = rapid.SampledFrom(c22LegalTransforms).Draw(t, "legal-transform")
+		n2 = c22LegalTransform(t, n1, tr)
+	} else {
+		n1 = c22GenName(t, "n1")
+		if rapid.IntRange(0, 3).Draw(t, "simple-first") == 0 {
+			n1 = rapid.SampledFrom([]string{"a", "b", "x", "orders", "0"}).Draw(t, "simple")
+		}
+		tr = rapid.SampledFrom(c22Transforms).Draw(t, "transform")
+		n2 = c22Transform(t, n1, tr)
 	}
-	tr := rapid.SampledFrom(c22Transforms).Draw(t, "transform")
-	n2 := c22Transform(t, n1, tr)
 	if rapid.Bool().Draw(t, "swap") {
 		n1, n2 = n2, n1
 	}
@@ -705,6 +741,7 @@ func c22GenCase(t *rapid.T, st *vfkit.Stats, colonStore bool) (*c22Case, string)
 	c.Order = rapid.SliceOfN(rapid.IntRange(0, 5), 2, 4).Draw(t, "order")
 	c.NRecs = rapid.SliceOfN(rapid.IntRange(1, 3), 1, 3).Draw(t, "nrecs")
 	c.Delete = rapid.IntRange(-1, 1).Draw(t, "delete")
+	c.Groups = rapid.SliceOfNDistinct(rapid.SampledFrom(c22GroupTemplates), 2, 4, rapid.ID[string]).Draw(t, "groups")
 	if colonStore && c.Delete >= 0 && vfkit.Known(c22ColonID) {
 		victim, other := c.Names[c.Delete], c.Names[1-c.Delete]
 		if strings.HasPrefix(other, victim+":") {
@@ -713,6 +750,66 @@ func c22GenCase(t *rapid.T, st *vfkit.Stats, colonStore bool) (*c22Case, string)
 		}
 	}
 	return c, tr
+}
+
+// consumer group id templates: other topics' names, ids that embed "/offsets/<topic>" (the
+// etcd key is /kafscale/consumers/<group>/offsets/<topic>/<partition>), ':' forms (the
+// in-memory key is group:topic:partition), plain ids.
+var c22GroupTemplates = []string{"{V}", "{O}", "etl/offsets/{V}", "etl/offsets/{O}", "{V}/offsets/{O}", "{O}/offsets/{V}", "g/offsets/{V}/offsets/{O}",
+	"/offsets/{V}/", "etl/offsets/{V}/0", "offsets/{V}", "{V}/offsets", "x/offsets", "a/b", "g:{V}", "{V}:0", "{V}:{O}", "c22-group/metadata", "app.consumer-1"}
+
+var c22LegalAtoms = []string{"a", "b", "x", "orders", "payments", "0", "1", "partitions", "offsets", "config", "next_offset", "default", "metadata", "A", "Orders", "a.b", "a_b", "a-b", "__consumer_offsets", "segment-00000000000000000000.kfs", "..."}
+
+func c22GenLegalName(t *rapid.T, label string) string {
+	n := rapid.IntRange(1, 3).Draw(t, label+"-natoms")
+	s := rapid.SampledFrom(c22LegalAtoms).Draw(t, label+"-atom")
+	for i := 1; i < n; i++ {
+		s += rapid.SampledFrom([]string{"", ".", "-", "_"}).Draw(t, label+"-sep") + rapid.SampledFrom(c22LegalAtoms).Draw(t, label+"-atom")
+	}
+	if rapid.IntRange(0, 24).Draw(t, label+"-long") == 0 {
+		s += strings.Repeat("L", rapid.IntRange(100, 249-len(s)).Draw(t, label+"-len"))
+	}
+	return s
+}
+
+var c22LegalTransforms = []string{"legal:dot-digit", "legal:dash-digit", "legal:underscore-digit", "legal:digit", "legal:dot-suffix", "legal:dot-prefix", "legal:upper", "legal:lower",
+	"legal:dash-underscore", "legal:dot-partitions", "legal:offsets-prefix", "legal:dlq", "legal:config", "legal:extend", "independent", "ordinary"}
+
+func c22LegalTransform(t *rapid.T, n, tr string) string {
+	d := rapid.SampledFrom([]string{"0", "1", "2"}).Draw(t, "digit")
+	switch tr {
+	case "legal:dot-digit":
+		return n + "." + d
+	case "legal:dash-digit":
+		return n + "-" + d
+	case "legal:underscore-digit":
+		return n + "_" + d
+	case "legal:digit":
+		return n + d
+	case "legal:dot-suffix":
+		return n + "."
+	case "legal:dot-prefix":
+		return "." + n
+	case "legal:upper":
+		return strings.ToUpper(n)
+	case "legal:lower":
+		return strings.ToLower(n)
+	case "legal:dash-underscore":
+		return strings.NewReplacer("-", "_", ".", "_").Replace(n)
+	case "legal:dot-partitions":
+		return n + ".partitions." + d
+	case "legal:offsets-prefix":
+		return "offsets." + n
+	case "legal:dlq":
+		return n + "-dlq"
+	case "legal:config":
+		return n + ".config"
+	case "legal:extend":
+		return n + rapid.SampledFrom(c22LegalAtoms).Draw(t, "ext")
+	case "ordinary":
+		return rapid.SampledFrom([]string{"payments", "orders", "logs-1", "a", "b"}).Draw(t, "ordinary")
+	}
+	return c22GenLegalName(t, "n2")
 }
 
 func c22Related(tr string) bool { return tr != "independent" && tr != "ordinary" }
